@@ -63,31 +63,18 @@ static void run_item(Ctx& ctx, const Item& it) {
 // bulk layer: outputs of 16 MiB and more (N x limbs x 8 bytes) with strides N and N+1 - a path chosen by the total amount of data
 // (non-temporal stores, blocking, prefetch distances) must still honour "no alignment beyond 8 bytes" and the size / stride semantics
 static void run_bulk(Ctx& ctx, int opi, int mtype, int shape) {
-  const VecOp& op = VECOPS[opi];
-  static const uint64_t SH[3][2] = {{65536, 33}, {16384, 160}, {1024, 2049}};
-  const uint64_t N = SH[shape][0], L = SH[shape][1];
-  MODULE* mod = get_module(N, mtype == 0 ? FFT64 : NTT120, CFG_NATIVE);
-  const char* mt = mtype == 0 ? "fft64" : "ntt120";
   ExecResult r;
-  for (uint64_t sl : {N + 1, N, N + 4})
-    for (int al = 0; al < 2; ++al) {
-      VecShape s; s.N = N; s.rs = L; s.as = L - 1; s.bs = L + 1; s.rsl = s.asl = s.bsl = sl; s.p = op.model == 'r' ? 5 : 3; s.res_extra = 0;
-      s.alias = al ? AL_RES_A : AL_NONE;
-      if (al && op.nin < 1) continue;
-      VecShape sc = canon_shape(op, s);
-      if (al && !alias_ok(op, sc)) continue;
-      ApiCase c = gen_vecop(mod, op, sc, mt, "native");
-      c.id += "|bulk";
-      if (!ctx.want(c.id)) continue;
-      ctx.begin_case(c.id);
-      for (int off : {0, 8}) {
-        ExecOpts o; o.prefill = 1; for (int i = 0; i < 12; ++i) o.off[i] = off * (i == 0 ? 1 : (i & 1));
-        execute(c, o, r);
-        std::string err = judge_model(c, r);
-        if (!err.empty()) { ctx.violation(c.id, err + sfmt(" (output at %d modulo 64)", off)); break; }
-      }
-      ctx.end_case(true);
+  bulk_vec_cases(opi, mtype, shape, [&](ApiCase& c) {
+    if (!ctx.want(c.id)) return;
+    ctx.begin_case(c.id);
+    for (int off : {0, 8}) {
+      ExecOpts o; o.prefill = 1; for (int i = 0; i < 12; ++i) o.off[i] = off * (i == 0 ? 1 : (i & 1));
+      execute(c, o, r);
+      std::string err = judge_model(c, r);
+      if (!err.empty()) { ctx.violation(c.id, err + sfmt(" (output at %d modulo 64)", off)); break; }
     }
+    ctx.end_case(true);
+  });
 }
 
 // element-level kernels on the full square of the value alphabet, nn = 1, 2, 4 (and 8 for the avx forms)
